@@ -252,6 +252,7 @@ class Extractor:
         self.dropped = []      # list of dropped things
         self.inserted = []     # tags of inserted clauses
         self.fn_meta = {}      # fn key -> dict(props, file, line)
+        self.inherits = {}     # impl fn key -> trait fn key whose clauses it must establish
         self.extra_segs = {}   # (file, offset) -> list of (file, segments) spliced in at offset
     def file(self, rel):
         if rel not in self.files:
@@ -546,6 +547,7 @@ class Extractor:
                         self.dropped.append('%s:%d fn %s (not in unit)' % (rel, line_of(src, sub.start), key))
                         continue
                     seen.add(sname)
+                    if ispec.get('trait_name'): self.inherits[key] = '%s::%s' % (ispec['trait_name'], sname)
                     if sname in (ispec.get('strip_default_body') or []):
                         if sub.body_open is None: raise ExtractError('fn %s has no default body to strip' % key)
                         self.rewrites.append('%s:%d  trait default body of `%s` `%s` replaced by `;` in the trait (the body is verified '
@@ -578,6 +580,7 @@ class Extractor:
                 t = tsubs[0]
                 if inh['fn'] in seen: raise ExtractError('impl `%s` now overrides %s' % (it.header(src), inh['fn']))
                 key = '%s::%s' % (ispec.get('name', name), inh['fn'])
+                if ispec.get('trait_name'): self.inherits[key] = '%s::%s' % (ispec['trait_name'], inh['fn'])
                 # a private Edits over the trait file so that the default body can be rendered with its own contract
                 sub_ex = Extractor(self.repo, self.cfg, self.canary)
                 sub_ex.files = {inh['file']: (tsrc, tm, Edits(inh['file'], tsrc))}
@@ -656,7 +659,7 @@ def build_unit(unit, repo, cfg, out_path, canary=False):
     with open(out_path, 'w') as f:
         f.write('\n'.join(out_lines) + '\n')
     meta = dict(unit=unit['name'], cfg=cfg, linemap=linemap, rewrites=ex.rewrites, dropped=ex.dropped,
-                inserted=ex.inserted, fns=ex.fn_meta)
+                inserted=ex.inserted, fns=ex.fn_meta, inherits=ex.inherits)
     with open(out_path + '.map.json', 'w') as f:
         json.dump(meta, f, indent=1)
     return meta
